@@ -31,6 +31,7 @@ pub const CHECKS: &[CheckDef] = &[
     CheckDef { id: "C13", quick_runs: 700, thorough_runs: 40_000, level: "fault_enumeration", title: "deterministic and resumable exploration" },
     CheckDef { id: "C14", quick_runs: 5000, thorough_runs: 80_000, level: "exploration", title: "exploration terminates and never repeats" },
     CheckDef { id: "C16", quick_runs: 1500, thorough_runs: 20_000, level: "exploration", title: "iterations and models are isolated" },
+    CheckDef { id: "C18", quick_runs: 3000, thorough_runs: 100_000, level: "exploration", title: "yielding spin loops progress and lose no exit outcome" },
     CheckDef { id: "C19", quick_runs: 1000, thorough_runs: 40_000, level: "exploration", title: "exploration controls and limits" },
     CheckDef { id: "C15", quick_runs: 1500, thorough_runs: 60_000, level: "exploration", title: "preemption bound is sound and monotone" },
 ];
@@ -164,6 +165,13 @@ pub fn generate(check: &str, tier: &str, seed: u64, run: u64) -> Case {
                 }
             }
         }
+        "C18" => {
+            let never = rng.chance(1, 6);
+            if never {
+                config.max_branches = 60;
+            }
+            gen_await(&mut rng, never)
+        }
         "C10" => gen_arc(&mut rng, true),
         "C11" => {
             config.iter_cap = if thorough { 30_000 } else { 4000 };
@@ -282,6 +290,26 @@ pub fn judge(check: &str, tier: &str, case: &Case, seed: u64, run: u64) -> CaseR
             opts.o2 = true;
             opts.o3_must_classes = vec![FailClass::Race];
             opts.o3_may_classes = vec![FailClass::Race, leak];
+        }
+        "C18" => {
+            let never = case.program.threads.iter().flatten().any(|o| matches!(o, Op::Await { v, .. } | Op::AwaitY { v, .. } if *v == crate::gen::NEVER));
+            if never {
+                // a loop whose condition can never become true must be reported (branch limit)
+                let mut rep = run_case(&case.program, &case.config, &CaseOpts { internal_is_violation: false, ignore_classes: vec![FailClass::BranchLimit], ..CaseOpts::default() }, &mut rng);
+                if !rep.status.starts_with("failed:BranchLimit") {
+                    rep.violations.push(crate::cases::Violation {
+                        kind: "spin".into(),
+                        detail: format!("the awaited value is never stored, so the model must stop at the branch limit; got {}", rep.status),
+                        known: None,
+                        evidence: serde_json::json!({}),
+                    });
+                }
+                return rep;
+            }
+            opts.o1 = Some(MachineCfg::must());
+            opts.o2 = true;
+            // the condition is established in every execution: no failure of any kind is expected
+            opts.internal_is_violation = true;
         }
         "C14" => {
             opts.o4 = true;
@@ -409,6 +437,17 @@ pub fn witnesses(check: &str) -> Vec<(&'static str, Program, &'static str)> {
             vec![Op::RLock { l: 0 }, Op::RUnlock { l: 0 }],
         ];
         v.push(("K6-ops-without-scheduling-point", p, "missing_outcome"));
+    }
+    if check == "C18" {
+        // K9: main reads a1 after a yield-first await on a relaxed flag; reading the initial value
+        // is allowed (nothing orders T1's stores before the load) but loom's yield pruning never
+        // offers a value "seen" before the yield once a newer store exists
+        let mut p = Program { atomics: vec![0, 0], ..Default::default() };
+        p.threads = vec![
+            vec![Op::Spawn { t: 1 }, Op::AwaitY { a: 0, o: MO::Acq, v: 48 }, Op::Load { a: 1, o: MO::Sc }, Op::Join { t: 1 }],
+            vec![Op::Store { a: 1, v: 16, o: MO::Rel }, Op::Store { a: 1, v: 32, o: MO::Rel }, Op::Store { a: 0, v: 48, o: MO::Rlx }],
+        ];
+        v.push(("K9-yield-prunes-stale-rereads", p, "missing_outcome"));
     }
     if check == "C07" {
         // K7: a lock taken by a destructor during the unwinding of a caught panic blocks; the
